@@ -167,6 +167,7 @@ class C17(RunProp):
     def cases(self, rng: random.Random, tier: str) -> Iterable[dict]:
         forced_two = 4
         forced_sparse = 4
+        forced_ren = 4
         while True:
             r = rng.random()
             if forced_two or r < 0.05:
@@ -193,6 +194,20 @@ class C17(RunProp):
                 kind = "loop"
                 if rng.random() < 0.4:
                     c = add_multi_wait(rng, c)
+            if forced_ren and any(n["kind"] == "fn" and n.get("emits") for n in c["program"][-1]["nodes"]):
+                # whatever the seed: signals declared under one name and RENAMED (with_outputs) to the name their waiters use
+                forced_ren -= 1
+                prog = copy.deepcopy(c["program"])
+                for n in prog[-1]["nodes"]:
+                    if n["kind"] == "fn" and n.get("emits"):
+                        n["renameEmits"] = True
+                c = dict(c, program=prog)
+            elif rng.random() < 0.1:
+                prog = copy.deepcopy(c["program"])
+                for n in prog[-1]["nodes"]:
+                    if n["kind"] == "fn" and n.get("emits") and rng.random() < 0.5:
+                        n["renameEmits"] = True
+                c = dict(c, program=prog)
             runners = ["async"] if c.get("async_only") else ["sync", "async"]
             cached = kind in ("dag", "loop") and not c.get("async_only") and rng.random() < 0.2
             for runner in runners:
